@@ -135,3 +135,42 @@ def fmt_bytes(bs, limit=14):
         else:
             out.append("0x%02X" % b)
     return "{" + ", ".join(out) + "}"
+
+
+def seq_hook(seq, extra=None):
+    """Call hook: the reader delivers the bytes of `seq` one after the other (peek does not
+    advance, next/discard do); None in seq = end of input; reading past the end stops the path."""
+
+    def pos(path):
+        n = 0
+        peeked = False
+        for e in path.events:
+            if e[0] == "call":
+                k = read_kind(e[1])
+                if k == "next":
+                    n += 1
+                    peeked = False
+                elif any(x in e[1] for x in DISCARDS):
+                    n += 1
+            elif e[0] == "store" and isinstance(e[1], Opq) and e[1].path and e[1].path[-1] == "index":
+                n += 1
+        return n
+
+    def hook(S, fn, bb, t, args, path):
+        names = F.callee_names(t)
+        if extra:
+            r = extra(S, fn, bb, t, args, path, names)
+            if r is not None:
+                return r
+        if is_read_call(names):
+            i = pos(path)
+            if i >= len(seq):
+                return ("stop", "past-sequence")
+            d = seq[i]
+            opt = some(d) if d is not None else none()
+            if SLICE_PEEK in names:
+                return ("value", opt)
+            return ("value", ok(opt))
+        return None
+
+    return hook
